@@ -49,6 +49,17 @@ Opt-in generic rewrites (fn options; additive, used by unit odsxml; each applica
         as a function value" is unsupported) is eta-expanded, with the closure's specification stating just that:
             .map_err(Type::Variant)  ->  .map_err(|__e| -> (__r: Type) ensures __r == Type::Variant(__e) { Type::Variant(__e) })
 
+  r13   R13 (additive, unit xlsfml): formatting macros whose format string is a plain string literal made of literal text and `{}`
+        placeholders only (no `{{`, `}}`, no `{:..}` / `{name}` specs) are expanded into their documented meaning (std::fmt: "the
+        literal pieces and the `Display` output of each argument are written in order; arguments are evaluated once, left to right,
+        before anything is written"; `impl fmt::Write for String` appends and never fails, so the `.unwrap()` of the result is a no-op):
+            write!(&mut S, "p0{}p1{}p2", a1, a2).unwrap()  ->  { let __w0 = &(a1); let __w1 = &(a2); verif_fmt_lit(&mut S, "p0");
+                                                                  verif_fmt_arg(&mut S, __w0); verif_fmt_lit(&mut S, "p1"); verif_fmt_arg(&mut S, __w1); verif_fmt_lit(&mut S, "p2"); }
+            format!("p0{}p1", a1)                          ->  { let __w0 = &(a1); let mut __f13 = String::new(); ...; __f13 }
+        The argument expressions and the literal pieces stay verbatim (empty pieces are dropped).  The unit declares
+        `verif_fmt_lit(&mut String, &str)` (appends the text) and `verif_fmt_arg<T>(&mut String, &T)` (appends `Display` of the value)
+        with their contracts.  Sites of any other shape are left alone (Verus then rejects the file: undecided, never a silent change).
+
 Exit codes: 0 ok, 2 lost anchor / unsupported (never a violation).
 """
 import json, os, re, subprocess, sys, hashlib
@@ -187,6 +198,33 @@ def split_top_commas(s):
     if cur.strip():
         parts.append(cur)
     return parts
+
+
+def r13_pieces(lit):
+    """literal pieces of a plain format-string literal `"p0{}p1{}..."` (escape sequences kept verbatim); None if not of that shape"""
+    if len(lit) < 2 or lit[0] != '"' or lit[-1] != '"':
+        return None
+    body, pieces, cur, i = lit[1:-1], [], "", 0
+    while i < len(body):
+        ch = body[i]
+        if ch == "\\":
+            if i + 1 >= len(body):
+                return None
+            cur += body[i : i + 2]
+            i += 2
+        elif ch == "{":
+            if body[i : i + 2] != "{}":
+                return None
+            pieces.append(cur)
+            cur = ""
+            i += 2
+        elif ch in '}"':
+            return None
+        else:
+            cur += ch
+            i += 1
+    pieces.append(cur)
+    return pieces
 
 
 class FnSpec:
@@ -583,9 +621,43 @@ def render_fn(fs, out, unit, log):
             new = f".map_err(|__e| -> (__r: {ty}) ensures __r == {ty}::{va}(__e) {{ {ty}::{va}(__e) }})"
             ins(st, new, {"type": "src", "file": relfile, "fn": flabel, "unit": unit, "rule": "R12"}, dl=en - st)
             log["rewrites"].append({"rule": "R12", "fn": flabel, "from": text[st:en], "to": new})
+    r13_sites = set()
+    if fs.opts.get("r13"):
+        # R13 (see module docstring): `write!(&mut S, "lit{}lit..", a1, ..).unwrap()` / `format!("lit{}..", a1, ..)` -> explicit pieces
+        for m in re.finditer(r"(?<![\w:!])(write|format)!\s*\(", text[body_s:body_e]):
+            st = body_s + m.start()
+            pe = balanced_end(text, body_s + m.end() - 1)
+            parts = [p.strip() for p in split_top_commas(text[body_s + m.end() : pe - 1])]
+            is_write = m.group(1) == "write"
+            if is_write:
+                mu = re.match(r"\.\s*unwrap\s*\(\s*\)", text[pe:])
+                if not mu or len(parts) < 2 or not re.fullmatch(r"&mut [A-Za-z_]\w*", parts[0]):
+                    continue
+                dest, fmt, args, en = parts[0], parts[1], parts[2:], pe + mu.end()
+            else:
+                if len(parts) < 1:
+                    continue
+                dest, fmt, args, en = "&mut __f13", parts[0], parts[1:], pe
+            pieces = r13_pieces(fmt)
+            if pieces is None or len(pieces) != len(args) + 1:
+                continue  # not the plain shape: left as is (Verus will reject it -> undecided, never a silent change)
+            new = "{ " + "".join(f"let __w{k} = &({a}); " for k, a in enumerate(args))
+            if not is_write:
+                new += "let mut __f13 = String::new(); "
+            for k, lit in enumerate(pieces):
+                if lit:
+                    new += f'verif_fmt_lit({dest}, "{lit}"); '
+                if k < len(args):
+                    new += f"verif_fmt_arg({dest}, __w{k}); "
+            new += "}" if is_write else "__f13 }"
+            r13_sites.add(st)
+            ins(st, new, {"type": "src", "file": relfile, "fn": flabel, "unit": unit, "rule": "R13"}, dl=en - st)
+            log["rewrites"].append({"rule": "R13", "fn": flabel, "from": text[st:en], "to": new})
     if fs.opts.get("r4"):
         for m in re.finditer(r"(?<![\w:!])format!\s*\(", text[body_s:body_e]):
             st = body_s + m.start()
+            if st in r13_sites:
+                continue
             pe = balanced_end(text, body_s + m.end() - 1)
             ins(st, "verif_opaque_string()", {"type": "rewrite", "rule": "R4", "fn": flabel, "unit": unit}, dl=pe - st)
             log["rewrites"].append({"rule": "R4", "fn": flabel, "from": text[st:pe]})
@@ -684,6 +756,15 @@ def build(unit_dir, out_path):
                         j += 1
                     log["rewrites"].append({"rule": "R8", "fn": path, "from": norm_ws(t[m.start():j]), "to": "", "why": f"feature {o['cfg_off']} is off in the verified configuration"})
                     t = t[: m.start()] + t[j:]
+            if o.get("static_refs") and rec["kind"] in ("const", "static"):
+                # R14 (additive item option `static_refs`, unit xlsfml): in the TYPE of a `const`/`static` item an elided reference lifetime is
+                # `'static` (Rust reference, "Lifetime elision: `'static` lifetime elision"); the verus! macro turns a const into a function,
+                # where the elision is no longer legal ("missing lifetime specifier"), so the lifetime is written out.  Nothing else changes.
+                mt = re.match(r"(?s)(.*?\b(?:const|static)\s+\w+\s*:)(.*?)(=.*)$", t)
+                if mt and re.search(r"&(?!\s*')", mt.group(2)):
+                    ty2 = re.sub(r"&(?!\s*')\s*", "&'static ", mt.group(2))
+                    log["rewrites"].append({"rule": "R14", "fn": path, "from": norm_ws(mt.group(2)), "to": norm_ws(ty2), "why": "elided lifetime in a const/static type is 'static"})
+                    t = mt.group(1) + ty2 + mt.group(3)
             out.add(t + "\n", {"type": "src", "file": relfile, "fn": path, "unit": unit, "src_byte": st, "item": True})
             log["items"].append({"file": relfile, "item": path, "kind": kind, "sha256": hashlib.sha256(t.encode()).hexdigest()})
         elif k == "impl":
